@@ -58,6 +58,15 @@ Theorem method_tail_decodes_partial : forall items e rest,
   = DOk (apply_end e (fold_left (fun q i => apply_mq i q) items mt0), rest).
 Proof. exact parse_method_end_roundtrip. Qed.
 
+(* the class head after the name: `final` / `explicit` in any order and number,
+   an optional base clause as above, then the brace that opens the body *)
+Theorem class_head_decodes_partial : forall default vs ws rest,
+  forallb access_ok ws = true -> (match vs with f :: _ => f = true | [] => True end) ->
+  class_head default (vs_toks vs ++ (match ws with [] => [] | _ => ktok T_LIT_58 :: join_comma (map wbase_toks ws) end) ++ ktok T_LIT_123 :: rest)
+  = DOk (existsb (fun f => f) vs, existsb negb vs, map (resolve default) ws, rest).
+Proof. exact class_head_roundtrip. Qed.
+
+Print Assumptions class_head_decodes_partial.
 Print Assumptions method_tail_decodes_partial.
 Print Assumptions field_statement_decodes_partial.
 Print Assumptions access_in_force_partial.
